@@ -1,6 +1,165 @@
-//! schedule scenarios: real threads forced through a prescribed order of store-level steps.
+//! schedule scenarios: real threads execute real commands (decode -> handle_request -> encode) against one shared store
+//! and are forced through a prescribed order of the store's steps on shared state, using the cfg(memcrs_verif)
+//! `verif_hooks::yield_point` callback.
+//!
+//! {"kind":"sched","policy":..,"memory_limit":..,"item_limit":..,
+//!  "setup":[handler steps], "clock": t,
+//!  "threads":[[frame hex,...],...], "schedule":[[tid,"op"],...], "probe":[frame hex,...]}
+use crate::{hex, make_world, panic_msg, unhex};
+use bytes::BytesMut;
+use memcrs::protocol::binary_codec::MemcacheBinaryCodec;
 use serde_json::{json, Value};
+use std::cell::Cell;
+use std::panic::{catch_unwind, AssertUnwindSafe};
+use std::sync::atomic::Ordering;
+use std::sync::{Arc, Condvar, Mutex};
+use std::time::Duration;
+use tokio_util::codec::Decoder;
 
-pub fn run_sched(_sc: &Value) -> Value {
-    json!({"error": "schedule scenarios not built yet"})
+thread_local! {
+    static TID: Cell<usize> = Cell::new(usize::MAX);
+}
+
+struct Sched {
+    order: Vec<(usize, String)>,
+    turn: usize,
+    granted: Option<usize>,
+    mismatch: Vec<String>,
+    stuck: bool,
+    log: Vec<(usize, String)>,
+}
+
+fn run_frame(w: &crate::World, codec: &mut MemcacheBinaryCodec, bytes: &[u8]) -> Value {
+    let mut buf = BytesMut::with_capacity(4096);
+    buf.extend_from_slice(bytes);
+    let r = catch_unwind(AssertUnwindSafe(|| match codec.decode(&mut buf) {
+        Err(e) => json!({"decode": "err", "msg": e.to_string()}),
+        Ok(None) => json!({"decode": "none"}),
+        Ok(Some(req)) => match w.handler.handle_request(req) {
+            None => json!({"decode": "some", "response": Value::Null}),
+            Some(resp) => {
+                let msg = codec.encode_message(&resp);
+                json!({"decode": "some", "response": hex(&msg.verif_bytes()[..])})
+            }
+        },
+    }));
+    match r {
+        Ok(v) => v,
+        Err(e) => json!({"panic": panic_msg(e)}),
+    }
+}
+
+pub fn run_sched(sc: &Value) -> Value {
+    let w = Arc::new(make_world(sc));
+    let limit = sc["item_limit"].as_u64().unwrap_or(1 << 20) as u32;
+    // set-up (unscheduled)
+    let mut codec = MemcacheBinaryCodec::new(limit);
+    if let Some(steps) = sc["setup"].as_array() {
+        for st in steps {
+            if let Some(v) = st.get("set_cas_id") {
+                w.mem.verif_set_cas_id(v.as_u64().unwrap());
+                continue;
+            }
+            if let Some(t) = st.get("clock") {
+                w.timer.0.store(t.as_u64().unwrap(), Ordering::SeqCst);
+            }
+            if let Some(f) = st.get("frame") {
+                run_frame(&w, &mut codec, &unhex(f.as_str().unwrap()));
+            }
+        }
+    }
+    if let Some(t) = sc["clock"].as_u64() {
+        w.timer.0.store(t, Ordering::SeqCst);
+    }
+    let order: Vec<(usize, String)> = sc["schedule"]
+        .as_array()
+        .unwrap()
+        .iter()
+        .map(|x| (x[0].as_u64().unwrap() as usize, x[1].as_str().unwrap().to_string()))
+        .collect();
+    let state = Arc::new((Mutex::new(Sched { order, turn: 0, granted: None, mismatch: vec![], stuck: false, log: vec![] }), Condvar::new()));
+    {
+        let st = state.clone();
+        memcrs::verif_hooks::set_hook(Some(Box::new(move |name: &'static str| {
+            let tid = TID.with(|t| t.get());
+            if tid == usize::MAX {
+                return;
+            }
+            let (m, cv) = &*st;
+            let mut s = m.lock().unwrap();
+            if s.granted == Some(tid) {
+                s.granted = None;
+                s.turn += 1;
+                cv.notify_all();
+            }
+            loop {
+                if s.stuck || s.turn >= s.order.len() {
+                    break;
+                }
+                if s.granted.is_none() && s.order[s.turn].0 == tid {
+                    if s.order[s.turn].1 != name {
+                        let msg = format!("step {}: thread {} is at {} but the schedule says {}", s.turn, tid, name, s.order[s.turn].1);
+                        s.mismatch.push(msg);
+                    }
+                    s.granted = Some(tid);
+                    s.log.push((tid, name.to_string()));
+                    break;
+                }
+                let (g, to) = cv.wait_timeout(s, Duration::from_millis(1500)).unwrap();
+                s = g;
+                if to.timed_out() {
+                    s.stuck = true;
+                    cv.notify_all();
+                    break;
+                }
+            }
+        })));
+    }
+    let threads = sc["threads"].as_array().unwrap();
+    let mut handles = vec![];
+    for (tid, frames) in threads.iter().enumerate() {
+        let frames: Vec<Vec<u8>> = frames.as_array().unwrap().iter().map(|f| unhex(f.as_str().unwrap())).collect();
+        let w = w.clone();
+        let st = state.clone();
+        handles.push(std::thread::spawn(move || {
+            TID.with(|t| t.set(tid));
+            let mut codec = MemcacheBinaryCodec::new(limit);
+            let mut out = vec![];
+            for f in frames {
+                out.push(run_frame(&w, &mut codec, &f));
+            }
+            let (m, cv) = &*st;
+            let mut s = m.lock().unwrap();
+            if s.granted == Some(tid) {
+                s.granted = None;
+                s.turn += 1;
+            }
+            cv.notify_all();
+            out
+        }));
+    }
+    let mut results = vec![];
+    for h in handles {
+        match h.join() {
+            Ok(v) => results.push(json!(v)),
+            Err(e) => results.push(json!([{"panic": panic_msg(e)}])),
+        }
+    }
+    memcrs::verif_hooks::set_hook(None);
+    let (m, _) = &*state;
+    let s = m.lock().unwrap();
+    let mut probes = vec![];
+    if let Some(ps) = sc["probe"].as_array() {
+        for p in ps {
+            probes.push(run_frame(&w, &mut codec, &unhex(p.as_str().unwrap())));
+        }
+    }
+    let mut v = json!({"threads": results, "probe": probes, "schedule_mismatch": s.mismatch, "stuck": s.stuck,
+        "steps_done": s.turn, "steps_planned": s.order.len(),
+        "followed": s.log.iter().map(|(t, n)| json!([t, n])).collect::<Vec<_>>()});
+    if let Some(p) = &w.policy {
+        v["usage"] = json!(p.verif_memory_usage());
+    }
+    v["len"] = json!(memcrs::cache::cache::Cache::len(&*w.mem));
+    v
 }
